@@ -99,6 +99,9 @@ func c06Enumerate(tier string, emit func(*eng.Case)) {
 			if tier != "thorough" && k == 2 && ui >= 2 {
 				continue // quick: pairs under two of the four page URLs
 			}
+			if k == 3 && ui >= 1 {
+				continue // thorough: triples under the first page URL (2.9e7 documents otherwise)
+			}
 			var d []string
 			for i := 0; i < nPos; i++ {
 				if f, ok := assign[i]; ok {
@@ -313,7 +316,7 @@ func init() {
 		ID:        "C06",
 		DesignRef: "§5 C06",
 		Rule: "host document with 23 URL-carrying positions (anchors whose text is a symbol without word characters, anchors wrapping a single inline element, block-styled anchors that become the root of their text block, a video with only a poster, a[href] in paragraph/list item/caption/table cell; img src, two srcset candidates, lazy data-src, picture source srcset + img, figure img, video src/poster, video source/track src, img in table), each defaulting to an absolute URL with a unique marker; " +
-			"every assignment of <= 2 (quick) / <= 3 (thorough) positions to one of 17 non-default reference forms (relative references that embed another absolute URL, paths containing commas, path-relative, ./, ../, root-relative, scheme-relative, query-only, fragment, data:, javascript:, https absolute, unparseable, relative with query, empty) x 4 page URLs." + crossRule + " (there, without markers: every URL of the output must be what the rule gives for some URL attribute of the source) " +
+			"every assignment of <= 2 (quick) / <= 3 (thorough) positions to one of 17 non-default reference forms (relative references that embed another absolute URL, paths containing commas, path-relative, ./, ../, root-relative, scheme-relative, query-only, fragment, data:, javascript:, https absolute, unparseable, relative with query, empty) x 4 page URLs (triples under the first one)." + crossRule + " (there, without markers: every URL of the output must be what the rule gives for some URL attribute of the source) " +
 			"Oracle: each URL attribute/srcset candidate of result.Node outside embed placeholders and each ContentImages entry, traced to its original by marker, equals the statement's rule (pass-through or RFC 3986 resolution against the page URL) and is absolute when resolved. Non-trivial = >= 1 relative reference reached the output.",
 		Enumerate: c06Enumerate,
 		Check:     c06Check,
